@@ -71,7 +71,9 @@ def resample_jackknife(observations: NDArray, patch_rows: bool = True) -> NDArra
     idx_range = np.arange(0, num_patches)
     idx_samples_full = np.tile(idx_range, num_patches)
 
-    idx_jackknife = np.delete(idx_samples_full, idx_range).reshape((num_patches, -1))
+    # dropping every (N+1)-th element removes patch k from the k-th sample
+    idx_diagonal = idx_range * (num_patches + 1)
+    idx_jackknife = np.delete(idx_samples_full, idx_diagonal).reshape((num_patches, -1))
     return observations[idx_jackknife].sum(axis=1)
 
 
